@@ -464,3 +464,281 @@ Proof.
     eexists _, _. split; [reflexivity|]. split; [reflexivity|]. split; [|reflexivity].
     destruct Hm as (A & B & C). repeat split; assumption.
 Qed.
+
+(** ** a run of statement lines *)
+
+Definition line_toks (l : line) : list atok :=
+  match l with LToks _ toks _ => map fst toks | LDir _ _ _ _ => [] end.
+
+Definition is_toks_line (l : line) : bool := match l with LToks _ _ _ => true | LDir _ _ _ _ => false end.
+
+Lemma machine_base : forall toks s ts s', machine toks s = (ts, Ok s') -> base s' = base s.
+Proof.
+  induction toks as [|t toks IH]; intros s ts s' H; cbn [machine] in H.
+  - inversion H; reflexivity.
+  - destruct (step s t) as [ts1 [s1|e]] eqn:Es; [|discriminate].
+    destruct (machine toks s1) as [ts2 r] eqn:Em. inversion H; subst.
+    rewrite (IH s1 ts2 s' Em). apply (step_base _ _ _ _ Es).
+Qed.
+
+Definition line_ok (l : line) : bool :=
+  line_wf l && line_simple l && forallb tok_ok_line (line_toks l).
+
+Lemma process_toks_line_any lead toks cmt s :
+  line_ok (LToks lead toks cmt) = true ->
+  process_line (render_line (LToks lead toks cmt)) s =
+  machine (map (fun t => vtok (base s) (render_tok t)) (map fst toks)) s.
+Proof.
+  unfold line_ok. rewrite !andb_true_iff. intros ((Hwf & Hsimple) & Htok). cbn [line_toks] in Htok.
+  destruct toks as [|tg toks'].
+  - cbn [map machine render_line List.concat app]. cbn [line_wf] in Hwf. rewrite !andb_true_iff in Hwf.
+    destruct Hwf as ((Hlead & _) & _). destruct cmt as [c|]; cbn [render_cmt].
+    + apply process_comment_line; [exact Hlead|]. cbn [line_simple map lexes] in Hsimple.
+      apply quote_free_of. apply negb_true_iff in Hsimple. exact Hsimple.
+    + rewrite app_nil_r. apply process_blank_line. exact Hlead.
+  - apply process_token_line; [discriminate | assumption | assumption | assumption].
+Qed.
+
+Lemma process_token_lines b : forall ls s,
+  base s = b -> forallb is_toks_line ls = true -> forallb line_ok ls = true ->
+  process_lines (map render_line ls) s =
+  machine_lines (map (fun l => map (fun t => vtok b (render_tok t)) (line_toks l)) ls) s.
+Proof.
+  induction ls as [|l ls IH]; intros s Hb Hk Hok; [reflexivity|].
+  cbn [forallb] in Hk, Hok. apply andb_true_iff in Hk. destruct Hk as (Hk1 & Hk). apply andb_true_iff in Hok. destruct Hok as (Hok1 & Hok).
+  destruct l as [lead toks cmt|]; [|discriminate Hk1].
+  cbn [map process_lines machine_lines line_toks].
+  rewrite (process_toks_line_any lead toks cmt s Hok1), Hb.
+  destruct (machine (map (fun t => vtok b (render_tok t)) (map fst toks)) s) as [ts [s'|e]] eqn:Em; [|reflexivity].
+  rewrite (IH s' (eq_trans (machine_base _ _ _ _ Em) Hb) Hk Hok). reflexivity.
+Qed.
+
+Lemma tok_str_vtok s0 t : tok_str s0 t = vtok (base s0) (render_tok t).
+Proof. destruct t; reflexivity. Qed.
+
+(** ** what the groups of a document contribute *)
+
+Lemma rc_free_nil l : rc_free l = true -> l = [].
+Proof. destruct l; [reflexivity | discriminate]. Qed.
+
+Lemma rc_free_app a b : rc_free (a ++ b) = true -> rc_free a = true /\ rc_free b = true.
+Proof. destruct a; [auto | discriminate]. Qed.
+
+Lemma rc_free_flat_map {A} (f : A -> list rc) l : rc_free (flat_map f l) = true -> forall x, In x l -> rc_free (f x) = true.
+Proof.
+  induction l as [|a l IH]; intros H x Hin; [contradiction|]. cbn [flat_map] in H.
+  apply rc_free_app in H. destruct H as (H1 & H2). destruct Hin as [<-|Hin]; [exact H1 | apply IH; assumption].
+Qed.
+
+Lemma rc_obj_ws e o : rc_free (rc_obj e o) = true ->
+  match lex_of (AObj o) with Some lex => negb (contains [ascii_of_nat 9] lex || contains (Str "  ") lex) = true | None => True end.
+Proof.
+  destruct o as [r|l|lex sfx|d]; cbn [lex_of]; try (intros; exact I).
+  cbn [rc_obj]. unfold rc_lit. intros H.
+  destruct (contains (Str """^^") (Str """" ++ lex)); [cbn in H; discriminate|]. cbn [when app] in H.
+  destruct (contains [ascii_of_nat 9] lex || contains (Str "  ") lex); [cbn in H; discriminate | reflexivity].
+Qed.
+
+Lemma in_sep_concat {A} (sep : list A) : forall (l : list (list A)) x,
+  In x (sep_concat sep l) -> In x sep \/ exists y, In y l /\ In x y.
+Proof.
+  induction l as [|a l IH]; intros x H; [contradiction|].
+  destruct l as [|b l'].
+  - right. exists a. split; [left; reflexivity | exact H].
+  - change (sep_concat sep (a :: b :: l')) with (a ++ sep ++ sep_concat sep (b :: l')) in H.
+    apply in_app_or in H. destruct H as [H|H]; [right; exists a; split; [left; reflexivity | exact H]|].
+    apply in_app_or in H. destruct H as [H|H]; [left; exact H|].
+    destruct (IH x H) as [H1 | (y & Hy & Hx)]; [left; exact H1 | right; exists y; split; [right; exact Hy | exact Hx]].
+Qed.
+
+Lemma group_facts e g :
+  group_wf g = true -> rc_free (rc_group e g) = true ->
+  group_dom e g = true /\ Forall (fun t => tok_ok_line t = true) (group_tokens g).
+Proof.
+  unfold group_wf, rc_group. rewrite !andb_true_iff. intros ((Hs & Hne) & Hpos) Hrc.
+  apply rc_free_app in Hrc. destruct Hrc as (Hrs & Hrpos).
+  pose proof (rc_free_flat_map _ _ Hrpos) as Hrpo.
+  assert (Hpo : forall po, In po (g_pos g) ->
+            pred_wf (fst po) = true /\ negb (Nat.eqb (List.length (snd po)) 0) = true /\
+            rc_free (rc_pred e (fst po)) = true /\
+            forall o, In o (snd po) -> obj_wf o = true /\ rc_free (rc_obj e o) = true).
+  { intros po Hin. rewrite forallb_forall in Hpos. specialize (Hpos po Hin). rewrite !andb_true_iff in Hpos.
+    destruct Hpos as ((A & B) & C). specialize (Hrpo po Hin). apply rc_free_app in Hrpo. destruct Hrpo as (D & F).
+    repeat split; try assumption.
+    - rewrite forallb_forall in C. auto.
+    - apply (rc_free_flat_map _ _ F). assumption. }
+  split.
+  - unfold group_dom, group_ok. rewrite !andb_true_iff. repeat split.
+    + unfold okS. rewrite Hs. exact Hrs.
+    + exact Hne.
+    + rewrite forallb_forall. intros po Hin. destruct (Hpo po Hin) as (A & B & C & D). rewrite !andb_true_iff. repeat split.
+      * unfold okP. rewrite A. exact C.
+      * exact B.
+      * rewrite forallb_forall. intros o Ho. destruct (D o Ho) as (F & G). unfold okO. rewrite F. exact G.
+  - apply Forall_forall. intros t Hin. unfold group_tokens in Hin.
+    destruct Hin as [<-|Hin]; [unfold tok_ok_line; cbn [atok_wf lex_of]; rewrite Hs; reflexivity|].
+    apply in_app_or in Hin. destruct Hin as [Hin|[<-|[]]]; [|reflexivity].
+    apply in_sep_concat in Hin. destruct Hin as [[<-|[]] | (y & Hy & Hx)]; [reflexivity|].
+    apply in_map_iff in Hy. destruct Hy as (po & <- & Hpoin). destruct (Hpo po Hpoin) as (A & B & C & D).
+    unfold po_tokens in Hx. destruct Hx as [<-|Hx]; [unfold tok_ok_line; cbn [atok_wf lex_of]; rewrite A; reflexivity|].
+    apply in_sep_concat in Hx. destruct Hx as [[<-|[]] | (z & Hz & Hx)]; [reflexivity|].
+    apply in_map_iff in Hz. destruct Hz as (o & <- & Hoin). destruct Hx as [<-|[]].
+    destruct (D o Hoin) as (F & G). unfold tok_ok_line. cbn [atok_wf]. rewrite F. cbn [andb].
+    pose proof (rc_obj_ws e o G) as Hws. destruct (lex_of (AObj o)); [exact Hws | reflexivity].
+Qed.
+
+(** ** documents: a prologue of directives, then statement groups *)
+
+Lemma sem_from_groups e gs :
+  sem_from e (map IGrp gs) = option_map (@List.concat triple) (seq_opt (map (sem_group e) gs)).
+Proof.
+  induction gs as [|g gs IH]; [reflexivity|]. cbn [map sem_from seq_opt]. rewrite IH.
+  destruct (sem_group e g) as [ts|]; [|reflexivity].
+  destruct (seq_opt (map (sem_group e) gs)) as [tss|]; reflexivity.
+Qed.
+
+Lemma stream_toks : forall ls, forallb is_toks_line ls = true ->
+  flat_map line_stream ls = map inr (List.concat (map line_toks ls)).
+Proof.
+  induction ls as [|l ls IH]; intros H; [reflexivity|]. cbn [forallb] in H. apply andb_true_iff in H. destruct H as (H1 & H2).
+  destruct l as [lead toks cmt|]; [|discriminate H1].
+  cbn [flat_map line_stream map line_toks List.concat]. rewrite (IH H2), map_app, map_map. reflexivity.
+Qed.
+
+Lemma map_inr_inj {A B} (a b : list B) : map (@inr A B) a = map inr b -> a = b.
+Proof.
+  revert b. induction a as [|x a IH]; intros [|y b] H; try discriminate; [reflexivity|].
+  cbn [map] in H. injection H as -> H. f_equal. apply IH. exact H.
+Qed.
+
+Lemma stream_no_dir : forall ls (T : list atok),
+  flat_map line_stream ls = map (@inr directive atok) T -> forallb is_toks_line ls = true.
+Proof.
+  induction ls as [|l ls IH]; intros T H; [reflexivity|].
+  destruct l as [lead toks cmt|lead d gaps cmt].
+  - cbn [forallb is_toks_line andb]. cbn [flat_map line_stream] in H.
+    assert (E : exists T2, flat_map line_stream ls = map inr T2).
+    { clear IH. revert T H. induction toks as [|tg toks IHt]; intros T H; [eauto|].
+      destruct T as [|t T]; [discriminate H|]. cbn [map app] in H. injection H as _ H. apply (IHt T H). }
+    destruct E as (T2 & E). apply (IH T2 E).
+  - cbn [flat_map line_stream app] in H. destruct T; discriminate H.
+Qed.
+
+Definition line_ok0 (l : line) : bool := line_wf l && line_simple l.
+
+Lemma Forall_concat_lines (P : atok -> bool) : forall ls,
+  Forall (fun t => P t = true) (List.concat (map line_toks ls)) ->
+  forall l, In l ls -> forallb P (line_toks l) = true.
+Proof.
+  induction ls as [|l0 ls IH]; intros H l Hin; [contradiction|].
+  cbn [map List.concat] in H. apply Forall_app in H. destruct H as (H1 & H2).
+  destruct Hin as [<-|Hin]; [|apply IH; assumption].
+  rewrite forallb_forall. rewrite Forall_forall in H1. exact H1.
+Qed.
+
+Lemma run_groups e s gs ls ts :
+  env_match e s -> state s = WS -> forallb line_ok0 ls = true ->
+  flat_map line_stream ls = map inr (flat_map group_tokens gs) ->
+  forallb group_wf gs = true -> rc_free (flat_map (rc_group e) gs) = true ->
+  sem_from e (map IGrp gs) = Some ts ->
+  exists s' ts', process_lines (map render_line ls) s = (ts', Ok s') /\
+                 map erase_lex ts' = map erase_lex ts /\ env_match e s' /\ state s' = WS.
+Proof.
+  intros Hm Hst Hok0 Hstream Hgwf Hrc Hsem.
+  pose proof (stream_no_dir ls _ Hstream) as Hk.
+  rewrite (stream_toks ls Hk) in Hstream. apply map_inr_inj in Hstream.
+  rewrite sem_from_groups in Hsem. destruct (seq_opt (map (sem_group e) gs)) as [tss|] eqn:Eseq; [|discriminate].
+  cbn [option_map] in Hsem. inversion Hsem; subst ts.
+  assert (Hfacts : forall g, In g gs -> group_dom e g = true /\ Forall (fun t => tok_ok_line t = true) (group_tokens g)).
+  { intros g Hin. apply group_facts; [rewrite forallb_forall in Hgwf; auto | apply (rc_free_flat_map _ _ Hrc g Hin)]. }
+  assert (Hdom : forallb (group_dom e) gs = true) by (rewrite forallb_forall; intros g Hin; apply (Hfacts g Hin)).
+  assert (Htoks : Forall (fun t => tok_ok_line t = true) (List.concat (map line_toks ls))).
+  { rewrite Hstream. apply Forall_forall. intros t Hin. apply in_flat_map in Hin. destruct Hin as (g & Hg & Ht).
+    destruct (Hfacts g Hg) as (_ & HF). rewrite Forall_forall in HF. auto. }
+  assert (Hok : forallb line_ok ls = true).
+  { rewrite forallb_forall. intros l Hin. unfold line_ok. rewrite forallb_forall in Hok0. specialize (Hok0 l Hin).
+    unfold line_ok0 in Hok0. rewrite Hok0. cbn [andb]. apply (Forall_concat_lines tok_ok_line ls Htoks l Hin). }
+  rewrite (process_token_lines (base s) ls s eq_refl Hk Hok).
+  destruct (groups_any_split e s gs (map line_toks ls) tss s Hm (same_env_refl s) Hst Hdom Eseq Hstream)
+    as (s' & ts' & Hrun & Her & Henv & Hs').
+  exists s', ts'. split; [|split; [exact Her | split; [apply (env_match_same e s s' Hm Henv) | exact Hs']]].
+  rewrite <- Hrun. f_equal. rewrite map_map. apply map_ext. intros l. apply map_ext. intros t. symmetry. apply tok_str_vtok.
+Qed.
+
+Lemma group_tokens_nonempty g : group_tokens g <> [].
+Proof. discriminate. Qed.
+
+(** the prologue: directive lines (and comment/blank lines) until the directives are used up *)
+Lemma run_doc : forall ls dirs e s gs ts,
+  env_match e s -> state s = WS -> forallb line_ok0 ls = true ->
+  flat_map line_stream ls = map inl dirs ++ map inr (flat_map group_tokens gs) ->
+  forallb dir_wf dirs = true -> forallb group_wf gs = true ->
+  rc_free (rc_doc e (map IDir dirs ++ map IGrp gs)) = true ->
+  sem_from e (map IDir dirs ++ map IGrp gs) = Some ts ->
+  exists s' ts', process_lines (map render_line ls) s = (ts', Ok s') /\
+                 map erase_lex ts' = map erase_lex ts /\ state s' = WS.
+Proof.
+  induction ls as [|l ls IH]; intros dirs e s gs ts Hm Hst Hok Hstream Hdwf Hgwf Hrc Hsem.
+  - destruct dirs as [|d0 dirs]; [|discriminate Hstream].
+    cbn [map app] in *.
+    assert (Hrcg : rc_free (flat_map (rc_group e) gs) = true).
+    { clear - Hrc. induction gs as [|g gs IHg]; [reflexivity|]. cbn [map rc_doc flat_map] in *.
+      apply rc_free_app in Hrc. destruct Hrc as (A & B). rewrite (rc_free_nil _ A). apply IHg. exact B. }
+    destruct (run_groups e s gs [] ts Hm Hst eq_refl Hstream Hgwf Hrcg Hsem) as (s' & ts' & A & B & _ & C). eauto.
+  - destruct dirs as [|d0 dirs].
+    + cbn [map app] in *.
+      assert (Hrcg : rc_free (flat_map (rc_group e) gs) = true).
+      { clear - Hrc. induction gs as [|g gs IHg]; [reflexivity|]. cbn [map rc_doc flat_map] in *.
+        apply rc_free_app in Hrc. destruct Hrc as (A & B). rewrite (rc_free_nil _ A). apply IHg. exact B. }
+      destruct (run_groups e s gs (l :: ls) ts Hm Hst Hok Hstream Hgwf Hrcg Hsem) as (s' & ts' & A & B & _ & C). eauto.
+    + cbn [forallb] in Hok. apply andb_true_iff in Hok. destruct Hok as (Hl & Hok).
+      unfold line_ok0 in Hl. apply andb_true_iff in Hl. destruct Hl as (Hlwf & Hlsimple).
+      cbn [forallb] in Hdwf. apply andb_true_iff in Hdwf. destruct Hdwf as (Hd0 & Hdwf).
+      destruct l as [lead toks cmt|lead d gaps cmt].
+      * (* a comment / blank line inside the prologue *)
+        cbn [flat_map line_stream map app] in Hstream.
+        destruct toks as [|tg toks']; [|discriminate Hstream].
+        cbn [map app] in Hstream.
+        assert (Hskip : process_line (render_line (LToks lead [] cmt)) s = ([], Ok s)).
+        { rewrite (process_toks_line_any lead [] cmt s); [reflexivity|].
+          unfold line_ok. rewrite Hlwf, Hlsimple. reflexivity. }
+        cbn [map process_lines]. rewrite Hskip.
+        destruct (IH (d0 :: dirs) e s gs ts Hm Hst Hok Hstream) as (s' & ts' & A & B & C); auto.
+        { cbn [forallb]. rewrite Hd0. exact Hdwf. }
+        exists s', ts'. rewrite A. auto.
+      * (* the directive line *)
+        cbn [flat_map line_stream map app] in Hstream. injection Hstream as Hd Hstream. subst d0.
+        cbn [map app rc_doc] in Hrc. apply rc_free_app in Hrc. destruct Hrc as (Hrcd & Hrc).
+        destruct (process_dir_line lead d gaps cmt e s Hlwf Hd0 (rc_free_nil _ Hrcd) Hlsimple Hm)
+          as (e' & s1 & Hsd & Hpl & Hm' & Hst').
+        cbn [map app sem_from] in Hsem. rewrite Hsd in Hsem, Hrc.
+        cbn [map process_lines]. rewrite Hpl.
+        destruct (IH dirs e' s1 gs ts Hm' (eq_trans Hst' Hst) Hok Hstream Hdwf Hgwf Hrc Hsem) as (s' & ts' & A & B & C).
+        exists s', ts'. rewrite A. auto.
+Qed.
+
+(** C07 (partial): prologue-form documents laid out on simple lines *)
+Theorem reader_correct_lines ls dirs gs ts :
+  lays_out ls (map IDir dirs ++ map IGrp gs) -> C07_dom ls (map IDir dirs ++ map IGrp gs) = true ->
+  forallb line_simple ls = true ->
+  sem (map IDir dirs ++ map IGrp gs) = Some ts ->
+  exists s' ts', process_lines (map render_line ls) st0 = (ts', Ok s') /\
+                 map erase_lex ts' = map erase_lex ts /\ state s' = WS.
+Proof.
+  intros (Hlwf & Hdwf & Hstream) Hdom Hsimple Hsem.
+  unfold C07_dom, C07_rcs in Hdom.
+  assert (Hrc : rc_free (rc_doc env0 (map IDir dirs ++ map IGrp gs)) = true).
+  { destruct (rc_doc env0 (map IDir dirs ++ map IGrp gs) ++ flat_map rc_line ls) eqn:E; [|discriminate].
+    apply app_eq_nil in E. destruct E as (E & _). rewrite E. reflexivity. }
+  rewrite forallb_app in Hdwf. apply andb_true_iff in Hdwf. destruct Hdwf as (Hd & Hg).
+  apply (run_doc ls dirs env0 st0 gs ts env_match0 eq_refl).
+  - rewrite forallb_forall. intros l Hin. unfold line_ok0. rewrite forallb_forall in Hlwf, Hsimple.
+    rewrite (Hlwf l Hin), (Hsimple l Hin). reflexivity.
+  - rewrite Hstream, flat_map_app. f_equal.
+    + clear. induction dirs as [|d dirs IH]; [reflexivity|]. cbn [map flat_map item_stream app]. rewrite IH. reflexivity.
+    + clear. induction gs as [|g gs IH]; [reflexivity|]. cbn [map flat_map item_stream]. rewrite IH, map_app. reflexivity.
+  - rewrite forallb_forall in Hd |- *. intros d Hin. apply (Hd (IDir d)). apply in_map. exact Hin.
+  - rewrite forallb_forall in Hg |- *. intros g Hin. apply (Hg (IGrp g)). apply in_map. exact Hin.
+  - exact Hrc.
+  - exact Hsem.
+Qed.
